@@ -18,8 +18,10 @@ def tables(ctx):
     return core.tables_dir(ctx, tuple(sorted({n // 2 for n in NNS_ALL if n >= 2} | {1})), NNS_ALL)
 
 
-def api_ob(tdir, api, nn, mt=0, avx=0, rsz=2, asz=2, asl=None, nrows=2, ncols=2, offs=0, flags=("--slice-formula",), tag="", timeout=None):
+def api_ob(tdir, api, nn, mt=0, avx=0, rsz=2, asz=2, asl=None, nrows=2, ncols=2, offs=0, flags=("--slice-formula",), tag="", timeout=None, arena=0):
     d = {"API": api, "NN": nn, "MM": nn // 2, "MT": mt, "AVX": avx, "RSZ": rsz, "ASZ": asz, "ASL": asl if asl is not None else nn, "NROWS": nrows, "NCOLS": ncols, "OFFS": offs}
+    if arena:
+        d["ARENA"] = arena
     name = "%s%s/%s/N=%d/avx=%d" % (tag, APIN[api], "ntt120" if mt else "fft64", nn, avx)
     if api in (1, 2, 3, 5, 8, 9):
         name += "/res=%d/a=%d" % (rsz, asz)
@@ -29,9 +31,19 @@ def api_ob(tdir, api, nn, mt=0, avx=0, rsz=2, asz=2, asl=None, nrows=2, ncols=2,
         name += "/rows=%d/cols=%d" % (nrows, ncols)
     if offs:
         name += "/offs=%d" % (8 * offs)
-    return Ob(name, "api.c", "h_api", d, LIBS, unwind=600, flags=list(flags), inc=[tdir], family=APIN[api] + (" ntt120" if mt else ""), timeout=timeout, mem_gb=12,
-              desc="public entry point on exactly-sized heap buffers (bytes_of_*, *_tmp_bytes from the real functions), all data symbolic: every read/write "
-                   "inside the declared extents, sources / module / tables bit-identical afterwards, rows beyond the input size zero")
+    if arena:
+        name += "/arena=%s" % ("fwd" if arena == 1 else "rev")
+        # one object holds every buffer: keep its elements as separate SSA symbols (default limit 64), otherwise every access goes through the array theory
+        flags = tuple(flags) + ("--max-field-sensitivity-array-size", "4096")
+        timeout = timeout or 600
+    o = Ob(name, "api.c", "h_api", d, LIBS, unwind=600, flags=list(flags), inc=[tdir], family=APIN[api] + (" ntt120" if mt else ""), timeout=timeout, mem_gb=12,
+           desc="public entry point on exactly-sized heap buffers (bytes_of_*, *_tmp_bytes from the real functions), all data symbolic: every read/write "
+                "inside the declared extents, sources / module / tables bit-identical afterwards, rows beyond the input size zero")
+    # generic operand words for the native confirmation when the solver's trace carries no data (the formula is sliced: values are irrelevant to
+    # extents, but a source overwritten by a transform only shows on non-zero data): bit patterns of small distinct doubles
+    import struct
+    o.probe_inputs = [str(struct.unpack("<Q", struct.pack("<d", 1.0 + ((37 * i + 11) % 101) / 8.0))[0]) for i in range(1600)]
+    return o
 
 
 def api_writeset_ob(tdir, api, nn, mt=0, avx=0, rsz=2, asz=2, nrows=2, ncols=2, tag="writeset/"):
